@@ -196,6 +196,9 @@ def run_instance(mod, shape, n, pattern, deadline=None):
         ex.run(deadline=deadline)
         account(ex, mons)
         collect(ex, label)
+        if label == 'first build' and len(nodes) <= 12 and ex.finals:
+            _s = ex.finals[0]
+            stats['sample'] = {'shape': shape, 'n': n, 'pattern': list(pattern), 'path': [[list(a), r] for a, r in _s.path()]}
         if label == 'first build':
             ok = [s for s in ex.finals if s.result == 'ok' and s.hist is not None and not s.dv.failed]
             if ok:
